@@ -63,9 +63,21 @@ def time_units(dump):
         units.append((ks, ratio))
         if "min" in ks:
             minute = ratio
+    if minute is None:
+        minute = Fraction(60)   # the renamed-units converter: no unit is called min
     for ks, ratio in units:
         for k in ks:
             out.append((k, ratio / minute))
+    return out
+
+
+def foreign_units(dump):
+    """keys of the units of a converter that do NOT measure time"""
+    out = []
+    for u in dump.split(" ; ")[1:]:
+        keys, time = u.split(" ")[:2]
+        if time != "1":
+            out.extend(unhx(k) for k in keys.split(","))
     return out
 
 
@@ -331,17 +343,17 @@ def harness_env():
 def prepare(bindir, runner):
     """dump the unit tables of the three converters and the classes of the non-ASCII alphabet"""
     exe = os.path.join(bindir, "stdmeta")
-    lines = ["U b", "U e", "U s"] + ["K %d" % c for c in NON_ASCII]
+    lines = ["U b", "U e", "U s", "U r"] + ["K %d" % c for c in NON_ASCII]
     p = subprocess.run([exe, "-"], input="\n".join(lines) + "\n", text=True, stdout=subprocess.PIPE,
                        env=dict(os.environ, **harness_env()), timeout=120)
     out = p.stdout.splitlines()
     if len(out) != len(lines):
         raise common.Broken("stdmeta harness: converter dump failed")
     dumps = {}
-    for cid, l in zip("bes", out[:3]):
+    for cid, l in zip("besr", out[:4]):
         if l != "U unavailable":
             dumps[cid] = l
-    alpha = [c for c, l in zip(NON_ASCII, out[3:]) if l.split(" ")[1] == "1"]
+    alpha = [c for c, l in zip(NON_ASCII, out[4:]) if l.split(" ")[1] == "1"]
     common.ensure_dirs()
     cpath = os.path.join(common.BUILD, "stdmeta-conv-%d.txt" % os.getpid())
     with open(cpath, "w") as f:
@@ -355,7 +367,7 @@ def prepare(bindir, runner):
 
 
 def build_cases(tier, rng, dumps):
-    convs = [c for c in "bes" if c in dumps]
+    convs = [c for c in "besr" if c in dumps]
     cases = []   # (group, case line)
     corpus = common.load_corpus("C13")
     for c in corpus:
@@ -383,6 +395,20 @@ def build_cases(tier, rng, dumps):
             key = rng.choice(["time", "time", "prep time", "cook time", "duration", "cook_time", "time required", "other"])
             car = rng.choice(["q", "q", "o", "y"])
             cases.append(("forms", case(cv, car, "t", key, s)))
+        # durations written with a unit that does not measure time (or mixing both): never a number of minutes
+        fu = [k for k in foreign_units(dumps[cv]) if k and not k[0].isdigit() and " " not in k]
+        tu = [k for k, _ in units]
+        for _ in range((300 if tier == "quick" else 6000) if fu else 0):
+            n = rng.choice(["2", "5", "1.5", "20", "0", "100"])
+            k = rng.choice(fu)
+            form = rng.random()
+            if form < 0.4:
+                s = n + rng.choice(["", " "]) + k
+            elif form < 0.7:
+                s = n + rng.choice(["", " "]) + k + " " + rng.choice(["20", "3"]) + rng.choice(["", " "]) + rng.choice(fu)
+            else:
+                s = n + " " + rng.choice(tu) + " " + rng.choice(["20", "3"]) + " " + k
+            cases.append(("foreign_units", case(cv, rng.choice(["q", "o", "y"]), "t", rng.choice(["time", "prep time"]), s)))
         for s in gen_numbers(rng, 600 if tier == "quick" else 20000):
             for car in ("q", "y", "o"):
                 cases.append(("numbers", case(cv, car, "t", rng.choice(["time", "prep time"]), s)))
@@ -530,7 +556,9 @@ def _run(rep, tier, rng, bind, binr, audit, runner, dumps, menv, conv_ok):
                     disagreements.append((cl, {"case": cl, "what": "parse_f64 model differs from str::parse::<f64>",
                                                "impl": impl_d[i][:800], "model": lm[:800]}))
     for cid, ok in conv_ok.items():
-        if ok != "C 1":
+        # the renamed-minute converter has no unit called `min` on purpose: the documented-forms theorems do not
+        # apply to it (conv_ok is their hypothesis); what is compared for it is that nothing reads as minutes
+        if ok != "C 1" and cid != "r":
             disagreements.append(("conv_ok " + cid, {"what": "hypothesis conv_ok of the theorems fails on the real converter %s" % cid,
                                                      "answer": ok}))
     if os.environ.get("C13_DUMP"):
@@ -553,7 +581,7 @@ def _run(rep, tier, rng, bind, binr, audit, runner, dumps, menv, conv_ok):
         "evaluations": 2 * len(lines), "model_cfg": mcfg, "cases": len(lines), "model_cases": len(mcases), "not_stored_or_unparsed": not_stored,
         "case_groups": groups, "distinct_nontrivial": len(distinct), "minutes_answered": answered,
         "rule": "every string up to length %d over %r as a time value (quoted YAML for all, `>>` and raw YAML for the shorter ones) "
-                "with the bundled, the empty and the bundled+spanish converter; seeded documented time forms with every key of "
+                "with the bundled, the empty, the bundled+spanish and a renamed-minute converter; durations written with non-time units; seeded documented time forms with every key of "
                 "every Time unit of each converter and totals up to and beyond 2^32 minutes; numbers without unit incl. nan/inf/"
                 "negative/exponent forms; composed prep/cook pairs around 2^32; servings lists with duplicates and trailing text; "
                 "tag lists; the name/URL grammar; every string up to length 5 over %r as locale; %d YAML values of every kind "
